@@ -13,7 +13,7 @@ ANNOTATIONS = ["int", "str", "t.Iterator[int]", "Generator[int, None, None]", "i
                "Optional[Dict[str, int]]", "list[str]", "t.Any", "Iterator[Tuple[int, str]]", "None", "Callable[..., int]"]
 STR_FORMS = ['"{0}"', "'{0}'", '"""{0}"""', 'r"{0}"', '"{0}" ""', "'''{0}'''"]
 YIELD_WRAPS = ["plain", "if", "for", "while", "with", "asyncwith", "asyncfor", "try", "except", "else", "finally",
-               "assign", "nestedfn", "return_paren"]
+               "assign", "nestedfn", "return_paren", "if_else_only", "for_else", "while_else", "yield_from", "elif"]
 
 
 class Src:
@@ -84,6 +84,16 @@ def yield_body(rng, src, indent):
         return [f"{i}yield 1"]
     if kind == "if":
         return [f"{i}if True:", f"{i}    yield 1", f"{i}else:", f"{i}    yield 2"]
+    if kind == "if_else_only":
+        return [f"{i}if False:", f"{i}    pass", f"{i}else:", f"{i}    yield 2"]
+    if kind == "elif":
+        return [f"{i}if False:", f"{i}    pass", f"{i}elif True:", f"{i}    yield 5", f"{i}else:", f"{i}    pass"]
+    if kind == "for_else":
+        return [f"{i}for _ in range(0):", f"{i}    pass", f"{i}else:", f"{i}    yield 6"]
+    if kind == "while_else":
+        return [f"{i}while False:", f"{i}    pass", f"{i}else:", f"{i}    yield 7"]
+    if kind == "yield_from":
+        return [f"{i}yield from [1, 2]"]
     if kind == "for":
         return [f"{i}for _ in range(1):", f"{i}    yield 1"]
     if kind == "while":
